@@ -129,6 +129,7 @@ var VerdictDefects = map[string]func(*model.Defects){
 	"named-format-type":     func(d *model.Defects) { d.NamedFormat = true },
 	"named-array-no-rules":  func(d *model.Defects) { d.NamedArrayNoLim = true },
 	"null-enum-default":     func(d *model.Defects) { d.EnumNullZero = true },
+	"map-value-anon-struct": func(d *model.Defects) { d.MapValueAnon = true },
 }
 
 // Explain returns the known finding whose defect model reproduces the tool's verdict, or "".
